@@ -520,6 +520,11 @@ func (r *Raft) setCommitIndex(index uint64) (configCommitted bool) {
 		// a node that is being added sees older configs which do not have it, as it
 		// catches up. those must not be taken as its removal
 		_, wasMember := r.configs.Committed.Nodes[r.nid]
+		// leader stops replicating to a node, as soon as it stores the config
+		// without that node. so a follower gets a config without itself, only from
+		// a leader whose latest config has it again: an old removal seen while catching
+		// up after it is added again. only leader gets to know its own removal
+		wasLeader := r.state == Leader
 		r.commitConfig()
 		configCommitted = true
 		if r.state == Leader && !r.configs.Latest.isVoter(r.nid) {
@@ -531,7 +536,7 @@ func (r *Raft) setCommitIndex(index uint64) (configCommitted bool) {
 			r.setState(Follower)
 			r.setLeader(0)
 		}
-		if r.shutdownOnRemove && wasMember {
+		if r.shutdownOnRemove && wasMember && wasLeader {
 			if _, ok := r.configs.Latest.Nodes[r.nid]; !ok {
 				r.doClose(ErrNodeRemoved)
 			}
